@@ -753,6 +753,13 @@ def directed_cases(tier):
             out.append({"nch": nch, "kinds": kinds, "slots": 6, "limits": lim, "ops":
                         [{"o": "create", "f": i, "size": 2048, "event": True} for i in (0, 1, 2, 3)] +
                         [{"o": "create", "f": 6, "size": 2048, "event": True}, {"o": "create", "f": 7, "size": 2048, "event": True}]})
+    # "all available space except N" with a time window: files outside the window exist when the ringbuffer is made (they
+    # are not its business and do not count as reclaimable space)
+    for win in ([T0 * 1000 + 1000, None, False], [None, T0 * 1000 + 1500, True]):
+        pre = [[0, 4096], [1, 4096], [4, 4096], [5, 4096]]
+        out.append({"nch": 1, "kinds": ["rf"], "slots": 6, "limits": {"size": 3 * 2048}, "win": win, "negsize": pre, "cli": 0, "ops":
+                    [{"o": "rescan", "kind": "existing"}] + [{"o": "create", "f": i, "size": 2048, "event": True} for i in (2, 3)] +
+                    [{"o": "modify", "f": 2, "size": 4096, "event": True}, {"o": "modify", "f": 3, "size": 3000, "event": True}]})
     # the real observer threads
     for sc in ("existing-then-live", "late-root", "root-replaced"):
         out.append({"live": sc, "verbose": sc == "late-root", "ops": [], "limits": {"count": 3}})
